@@ -95,6 +95,87 @@ def drive(tier):
         d = gen.gen_tx(r, nin=1, nout=0)
         i = gen.build_tx(d).vin[0]
         R.add("x.pred", {"txin": gen.proj_txin(i)}, {"final": bool(i.is_final()), "null": bool(i.prevout.is_null())})
+    # ---- stand-alone serialisers
+    from bitcoin.core.serialize import (VarIntSerializer, BytesSerializer, VarStringSerializer, intVectorSerializer,
+                                        uint256VectorSerializer, SerializationTruncationError, SerializationError)
+    for n in [0, 1, 252, 253, 254, 255, 256, 65535, 65536, 2 ** 32 - 1, 2 ** 32, 2 ** 63, 2 ** 64 - 1] + [r.getrandbits(r.choice([8, 16, 32, 64])) for _ in range(40)]:
+        ser = VarIntSerializer.serialize(n)
+        R.add("x.varint", {"n": nat(n)}, {"ser": b2l(ser), "back": nat(VarIntSerializer.deserialize(ser))})
+
+    def rd(kind, cls, buf, conv):
+        k, v = call(cls.deserialize, buf)
+        if k == "ret":
+            out = {"k": "ret", "v": conv(v)}
+        elif isinstance(v, SerializationTruncationError):
+            out = {"k": "trunc"}
+        elif isinstance(v, SerializationError):
+            out = {"k": "toolarge"}
+        else:
+            out = dict(exc_info(v), k="other")
+        R.add("x.read", {"kind": kind, "buf": b2l(buf)}, out)
+    bufs = [b"", b"\x00", b"\x01", b"\x01\x07", b"\x02\x07", b"\xfc" + bytes(252), b"\xfd", b"\xfd\x01", b"\xfd\x01\x00\x09", b"\xfd\xfd\x00" + bytes(253),
+            b"\xfe\x01\x00\x00", b"\xfe\x01\x00\x00\x00\x05", b"\xff" + bytes(7), b"\xff\x01" + bytes(7) + b"\x09", b"\xfe\x01\x00\x00\x02", b"\xff" + bytes(7) + b"\x80",
+            b"\xfe\x00\x00\x00\x02", b"\xfe\x01\x00\x00\x02", b"\x01" + bytes(4), b"\x02" + bytes(7), b"\x01" + bytes(32), b"\x02" + bytes(63), b"\x02" + bytes(64) + b"zz"]
+    bufs += [gen.rbytes(r, r.randrange(0, 12)) for _ in range(60)] + [bytes([r.randrange(0, 4)]) + gen.rbytes(r, r.randrange(0, 100)) for _ in range(60)]
+    for buf in bufs:
+        rd("varint", VarIntSerializer, buf, nat)
+        rd("bytes", BytesSerializer if r.random() < 0.5 else VarStringSerializer, buf, b2l)
+        rd("intvec", intVectorSerializer, buf, lambda v_: [le_signed(i_, 4) for i_ in v_])
+        rd("u256vec", uint256VectorSerializer, buf, lambda v_: [b2l(i_) for i_ in v_])
+    for n in [0, 1, 2, 252, 253, 300]:
+        ints = [r.getrandbits(32) - 2 ** 31 for _ in range(n)]
+        ser = intVectorSerializer.serialize(ints)
+        R.add("x.vec", {"v": [le_signed(i_, 4) for i_ in ints]}, {"ser": b2l(ser), "back": [le_signed(i_, 4) for i_ in intVectorSerializer.deserialize(ser)]})
+        if n <= 253:
+            us = [gen.rbytes(r, 32) for _ in range(n)]
+            ser = uint256VectorSerializer.serialize(us)
+            R.add("x.vec", {"v": [b2l(u) for u in us]}, {"ser": b2l(ser), "back": [b2l(u) for u in uint256VectorSerializer.deserialize(ser)]})
+    # ---- OpenSSL-style big numbers
+    from bitcoin.core import _bignum as bn
+
+    def sm(v):
+        return {"neg": v < 0, "mag": nat(abs(v))}
+    vals = [0, 1, -1, 127, 128, -127, -128, 255, 256, -255, -256, 32767, 32768, -32768, 2 ** 31 - 1, 2 ** 31, -2 ** 31, 2 ** 63, -2 ** 63, 2 ** 64 - 1, 2 ** 255, -(2 ** 256 - 1)]
+    vals += [(r.getrandbits(r.randrange(1, 300)) * r.choice([1, -1])) for _ in range(80)]
+    for v in vals:
+        mpi, vch = bn.bn2mpi(v), bn.bn2vch(v)
+        R.add("x.bignum", sm(v), {"bin": b2l(bytes(bn.bn2bin(abs(v)))), "bin_back": nat(bn.bin2bn(bn.bn2bin(abs(v)))), "mpi": b2l(mpi), "vch": b2l(vch),
+                                  "mpi_back": sm(bn.mpi2bn(mpi)), "vch_back": sm(bn.vch2bn(vch))})
+    strs = [b"", b"\x00", b"\x80", b"\x00\x80", b"\x01\x00", b"\xff", b"\xff\xff", b"\x00\x00\x00\x00", b"\x00\x00\x00\x01\x80", b"\x00\x00\x00\x02\x80\x01",
+            b"\x00\x00\x00\x01", b"\x00\x00\x00\x03\x01\x02", b"\x00\x00\x00\x02\x00\x80", b"\x00\x00\x01\x00" + bytes(256)]
+    strs += [gen.rbytes(r, r.randrange(0, 12)) for _ in range(60)] + [(n_).to_bytes(4, "big") + gen.rbytes(r, n_ + r.choice([0, 0, 0, 1, -1]) if n_ else 0) for n_ in range(0, 12)]
+    for s_ in strs:
+        m = bn.mpi2bn(s_)
+        R.add("x.bignum.dec", {"s": b2l(s_)}, {"vch": sm(bn.vch2bn(s_)), "mpi_ok": m is not None, "mpi": sm(m) if m is not None else {"neg": False, "mag": []}})
+    # ---- DERSignature
+    from bitcoin.signature import DERSignature
+
+    def dersig(b):
+        k, v = call(DERSignature.deserialize, b)
+        if k == "ret":
+            k2, v2 = call(v.serialize)
+            out = {"k": "ret", "r": b2l(v.r), "s": b2l(v.s), "length": v.length, "reser": b2l(v2) if k2 == "ret" else []}
+        elif isinstance(v, SerializationTruncationError):
+            out = {"k": "trunc"}
+        elif isinstance(v, AssertionError):
+            out = {"k": "tag"}
+        elif type(v).__name__ == "DeserializationExtraDataError":
+            out = {"k": "extra"}
+        elif isinstance(v, SerializationError):
+            out = {"k": "toolarge"}
+        else:
+            out = dict(exc_info(v), k="other")
+        R.add("x.dersig", {"b": b2l(b)}, out)
+    for _ in range(12):
+        sig = key.sign(gen.rbytes(r, 32))
+        dersig(sig)
+        dersig(sig[:r.randrange(0, len(sig))])
+        dersig(sig + b"\x01")
+        m_ = bytearray(sig)
+        m_[r.randrange(len(m_))] ^= 1 << r.randrange(8)
+        dersig(bytes(m_))
+    for b_ in (b"", b"\x30", b"\x31\x00", b"\x30\x00", b"\x30\x02\x02\x00", b"\x30\x04\x02\x00\x02\x00", b"\x30\x06\x02\x01\x01\x02\x01\x01", b"\x30\x05\x02\x00\x02\x00\x00"):
+        dersig(b_)
     return R.recs
 
 
